@@ -169,7 +169,8 @@ def roundtrip_check(ctx, rng, name, l, protocols, full):
     want_pos32 = raw[0].astype(np.float32).astype(float)
     for proto in protocols:
         for hist in histories:
-            fresh = Lattice(*[a.copy() for a in raw])
+            # every other history is pickled from a lattice whose crossing array is float64 (what make_dual and the quasicrystal generator hand to the constructor)
+            fresh = Lattice(*[a.copy() for a in raw]) if (len(hist) + proto) % 2 == 0 else Lattice(raw[0].copy(), raw[1].copy(), raw[2].astype(np.float64))
             try:
                 for a in hist:
                     touch(fresh, a)
@@ -233,6 +234,9 @@ def equality_panel(ctx, rng, lattices, reqs, meta):
         for f, want in ((0.9, True), (1.1, False), (0.5, True), (3.0, False)):
             Q = P.copy(); k = int(rng.integers(n)); ax = int(rng.integers(2)); Q[k, ax] += f * tol * (1 if rng.integers(2) else -1)
             variants.append((f"displace {f}x tol", Lattice(Q, E, C), want))
+        for dv in ((1, 0), (0, -1), (-1, 2), (1, 1)):                  # a whole number of cells is a displacement like any other (edges and crossings unchanged)
+            Q = P.copy(); k = int(rng.integers(n)); Q[k] += np.array(dv, dtype=float)
+            variants.append((f"displace by the cell vector {dv}", Lattice(Q, E, C), False))
         E2 = E.copy(); E2[int(rng.integers(len(E)))] = E2[int(rng.integers(len(E)))][::-1] + 0
         if not np.array_equal(E2, E):
             variants.append(("changed edge", Lattice(P, E2, C), False))
